@@ -56,7 +56,10 @@ def gen_tree(rng, depth=0, budget=None):
     return kids
 
 
-def materialise(root, tree, outside):
+def materialise(root, tree, outside, links=None):
+    """files of equal size are, for about a third of them, further hard links of one inode (as the by-hash aliases of the
+    tool's own mirror trees are): every name is a file of that size in its own right for the cleaner"""
+    links = {} if links is None else links
     os.makedirs(root, exist_ok=True)
     for name, k in tree:
         p = os.path.join(root, name)
@@ -64,10 +67,16 @@ def materialise(root, tree, outside):
             tgt = random.Random(name).choice([outside, os.path.join(outside, "f"), "/nonexistent/x", root])
             os.symlink(tgt, p)
         elif isinstance(k, int):
-            with open(p, "wb") as fp:
-                fp.write(b"x" * k)
+            first = links.get(k)
+            if first is not None and random.Random(f"{name}-{k}-{len(links)}-{p[-9:]}").random() < 0.35:
+                os.link(first, p)
+                links["n"] = links.get("n", 0) + 1
+            else:
+                with open(p, "wb") as fp:
+                    fp.write(b"x" * k)
+                links.setdefault(k, p)
         else:
-            materialise(p, k, outside)
+            materialise(p, k, outside, links)
 
 
 def all_paths(tree, rel=()):
@@ -272,6 +281,10 @@ CORPUS = [
     ([["a", [["f", 1]]], ["ab", [["k", 1], ["j", 1]]], ["abc", 3], ["a b", [["k", 2], ["j", 0]]]], [["ab", "k"], ["a b", "k"]]),
     ([["d", [["e", [["f", 1]]]]], ["d2", [["e", [["f", 1], ["g", 1]]]]]], [["d2", "e", "f"]]),
     ([["x", [["y", 4]]], ["x.deb", 9], ["x-", [["keep", 1], ["y", 4]]]], [["x-", "keep"], ["x.deb"]]),
+    # equal sizes (hard-linked names when materialised): a kept name and stale names of one inode in different directories
+    ([["pool", [["h", [["hello.deb", 100]]], ["o", [["old.deb", 100]]]]], ["by-hash", [["MD5Sum", [["aa", 100]]], ["SHA256", [["bb", 100], ["cc", 100]]]]]],
+     [["pool", "h", "hello.deb"], ["by-hash", "SHA256", "bb"]]),
+    ([["a", [["f1", 5], ["f2", 5]]], ["b", [["f3", 5]]], ["c", [["f4", 5], ["keep", 5]]]], [["c", "keep"]]),
 ]
 
 
